@@ -165,6 +165,14 @@ def classify(symptom, a, b=None):
     feats = set()
     for w, n in sides:
         feats |= G.features(w, n)
+    if symptom == "equal-hash-for-different-work":
+        # evidence first: the two sides differ ONLY in something a named root cause ignores (thorough seed 11: a pair
+        # that differs in the contents of a direct directory reference, on a component whose name ends in a digit, was
+        # attributed to the - repaired - digit lookup, which is a mere possibility predicate)
+        for name, flags in ((SIG_DIROUT, {"dirout"}), (SIG_DDIR, {"ddir"}), (SIG_DIROUT, {"dirout", "ddir"})):
+            fl = frozenset(flags)
+            if G.descriptor(a[0], a[1], fl) == G.descriptor(b[0], b[1], fl):
+                return name
     if any(_digit_effect(w, n, symptom) for w, n in sides):
         return SIG_DIGIT
     if symptom == "different-hash-for-equivalent-work":
